@@ -114,25 +114,36 @@ def fromMapH : Handler := fun j => do
   let results ← listOf aexprOfJson (← field j "results")
   return jExcept operandToJson (fromMapE n results)
 
-/-- args: {"t", "s", "sizes", "fuel"[, "expr0": [aexpr]]} -> schedule | {"raised": ..} (empty generator =
-StopIteration).  With "expr0" the first operand's (A, b) is built by `fromAffineMap` from these result
-expressions (the placeholder in "s" is replaced); a rejected map is the pass's ValueError. -/
+/-- args: {"t", "s", "sizes", "fuel"[, "expr0": [aexpr]][, "exprs": [null | [aexpr]]]} -> schedule | {"raised": ..}
+(empty generator = StopIteration).  With "expr0" / "exprs" the (A, b) of the named operands are built by
+`AT.fromMap` from these result expressions (the placeholders in "s" are replaced); a rejected map is the pass's
+ValueError.  The search is the lazy `autoflowFirst` (= `next(..)` in the pass). -/
 def autoflowH : Handler := fun j => do
   let t ← tmplOfJson (← field j "t")
   let s0 ← schedOfJson (← field j "s")
-  let s ← match (j.getObjVal? "expr0").toOption with
-    | none => pure (Except.ok s0 : Except Err Schedule)
-    | some ej => do
-      let results ← listOf aexprOfJson ej
-      match fromMapE s0.n results with
-      | .error e => pure (Except.error e)
-      | .ok o => pure (Except.ok { s0 with ops := o :: s0.ops.drop 1 })
-  let s ← match s with
+  let exprs : List (Option (List AExpr)) ← match (j.getObjVal? "exprs").toOption with
+    | some ej => listOf (optOf (listOf aexprOfJson)) ej
+    | none => match (j.getObjVal? "expr0").toOption with
+      | some ej => do pure [some (← listOf aexprOfJson ej)]
+      | none => pure []
+  -- operands in order, the first rejected map wins (the pass builds the patterns in operand order)
+  let rec build (ops : List Operand) (es : List (Option (List AExpr))) : Except Err (List Operand) :=
+    match ops, es with
+    | o :: ops', (some rs) :: es' => do
+      let o' ← fromMapE s0.n rs
+      let rest ← build ops' es'
+      pure (o' :: rest)
+    | o :: ops', none :: es' => do
+      let rest ← build ops' es'
+      pure (o :: rest)
+    | ops, [] => pure ops
+    | [], _ => pure []
+  let s ← match build s0.ops exprs with
     | .error e => return Json.mkObj [("raised", Json.str (errName e))]
-    | .ok s => pure s
+    | .ok ops => pure { s0 with ops := ops }
   let sizes ← listOf nat (← field j "sizes")
   if sizes.any (· == 0) then throw "element size 0"
-  match autoflow sizes t (← nat (← field j "fuel")) s with
+  match autoflowFirst sizes t (← nat (← field j "fuel")) s with
   | .error e => return Json.mkObj [("raised", Json.str (errName e))]
   | .ok none => return Json.mkObj [("raised", Json.str "StopIteration")]
   | .ok (some r) => return schedToJson r
